@@ -99,7 +99,46 @@ type libSide struct {
 var libSchemaCache = struct {
 	text string
 	s    *ast.Schema
+	// every type reference of the schema's definitions as written, taken right after loading:
+	// what a position declares must be read from here, not from an object validation has touched
+	declared map[*ast.Type]string
 }{}
+
+// declaredType: the type reference t of the cached schema as it was written in the schema text.
+func declaredType(t *ast.Type) string {
+	if t == nil {
+		return "<nil>"
+	}
+	if s, ok := libSchemaCache.declared[t]; ok {
+		return s
+	}
+	return t.String()
+}
+
+func snapshotDeclaredTypes(s *ast.Schema) map[*ast.Type]string {
+	out := map[*ast.Type]string{}
+	var add func(t *ast.Type)
+	add = func(t *ast.Type) {
+		for ; t != nil; t = t.Elem {
+			out[t] = t.String()
+		}
+	}
+	args := func(l ast.ArgumentDefinitionList) {
+		for _, a := range l {
+			add(a.Type)
+		}
+	}
+	for _, d := range s.Types {
+		for _, f := range d.Fields {
+			add(f.Type)
+			args(f.Arguments)
+		}
+	}
+	for _, d := range s.Directives {
+		args(d.Arguments)
+	}
+	return out
+}
 
 func libLoadSchema(text string) (*ast.Schema, error) {
 	if libSchemaCache.text == text && libSchemaCache.s != nil {
@@ -110,6 +149,7 @@ func libLoadSchema(text string) (*ast.Schema, error) {
 		return nil, err
 	}
 	libSchemaCache.text, libSchemaCache.s = text, s
+	libSchemaCache.declared = snapshotDeclaredTypes(s)
 	return s, nil
 }
 
